@@ -97,7 +97,29 @@ F32Clauses(r) ==
     [ NonNegative           |-> r.raised \/ ~r.neg,
       SinglePrecisionSource |-> ~r.raised /\ Le(r.q, 1, 6) /\ Le(r.qd, 1, 4) ]
 
+\* a grid derived from a source (AreaDerived.tla): r.exp = the source faces it must consist of and
+\* r.exp_sizes their sizes (both emitted by TLC); q_inv = deviation of every area observation (face_areas,
+\* compute_face_areas in both inputs, total) from the FRESH source's values of those faces; qe = per face
+\* <<class, deviation of the default-rule area from the exact excess>>
+DerivedClauses(r) ==
+    [ DerivedReturns             |-> ~r.raised,
+      DerivedFaceCount           |-> ~r.raised => r.n_face = Len(r.exp),
+      DerivedSizes               |-> ~r.raised => r.npf = r.exp_sizes,
+      DerivedAreasAreSourceAreas |-> ~r.raised => Le(r.q_inv, 1, 10),
+      DerivedAreasExact          |-> ~r.raised => \A k \in 1..Len(r.qe) :
+                                         HasClass(r.qe[k][1]) => Le(r.qe[k][2], 1, TolE(r.qe[k][1])),
+      NonNegative                |-> ~r.raised => ~r.neg ]
+DualClauses(r) ==
+    [ DerivedReturns   |-> ~r.raised,
+      DualHistoryFree  |-> ~r.raised => Le(r.q_inv, 1, 10),
+      DualTotalIs4Pi   |-> (~r.raised /\ r.closed) => Le(r.tot, 1, 2),
+      NonNegative      |-> ~r.raised => ~r.neg ]
+PartitionClauses(r) == [ PartitionAdds |-> Le(r.part_q, 1, 10) ]
+
 Clauses(r) == CASE r.kind = "face" -> FaceClauses(r)
+                [] r.kind = "derived" -> DerivedClauses(r)
+                [] r.kind = "dual" -> DualClauses(r)
+                [] r.kind = "partition" -> PartitionClauses(r)
                 [] r.kind = "f32" -> F32Clauses(r)
                 [] r.kind = "orbit" -> OrbitClauses(r)
                 [] r.kind = "mesh" -> MeshClauses(r)
@@ -125,6 +147,13 @@ SelfTest ==
        /\ Failed([ good EXCEPT !.g = << Q(Cap, 900), Q(5, 1), Q(Cap, 101), Q(5000, 1) >> ]) = {"HigherOrdersWithinClass"}
        /\ Failed([ good EXCEPT !.cx = Q(Cap, 1000000), !.czero = TRUE ]) = {"CartesianInputAgrees"}
        /\ Failed([ good EXCEPT !.neg = TRUE ]) = {"NonNegative"}
+       /\ LET d == [ kind |-> "derived", id |-> "z", raised |-> FALSE, neg |-> FALSE, n_face |-> 2, exp |-> <<0, 2>>,
+                      npf |-> <<3, 4>>, exp_sizes |-> <<3, 4>>, q_inv |-> Q(0, 0), qe |-> << <<"le65", Q(Cap, 90)>>, <<"gt65", Q(Cap, Cap)>> >> ]
+          IN /\ Failed(d) = {}
+             /\ Failed([ d EXCEPT !.npf = <<4, 4>> ]) = {"DerivedSizes"}
+             /\ Failed([ d EXCEPT !.q_inv = Q(1001, 1) ]) = {"DerivedAreasAreSourceAreas"}
+             /\ Failed([ d EXCEPT !.qe = << <<"le65", Q(Cap, 10001)>> >> ]) = {"DerivedAreasExact"}
+             /\ Failed([ d EXCEPT !.n_face = 3 ]) = {"DerivedFaceCount"}
        /\ Failed([ kind |-> "f32", id |-> "y", raised |-> TRUE, neg |-> FALSE, q |-> Q(0, 0), qd |-> Q(0, 0) ]) = {"SinglePrecisionSource"}
        /\ Failed([ kind |-> "f32", id |-> "y", raised |-> FALSE, neg |-> FALSE, q |-> Q(Cap, 2), qd |-> Q(0, 0) ]) = {"SinglePrecisionSource"}
        /\ Failed([ kind |-> "f32", id |-> "y", raised |-> FALSE, neg |-> FALSE, q |-> Q(9000000, 1), qd |-> Q(Cap, 100) ]) = {}
